@@ -21,8 +21,10 @@ RULE = ("XAR: archives from the harness's own xar writer (1-5 members in nested 
         "signature, CMS DER, CMS padding, first / middle / last byte of every heap range the TOC names whatever the entry type, gaps, trailer); malformed stream: header fields through their boundary values, "
         "truncations, appended bytes, 22 kinds of TOC surgery (sizes/offsets/lengths through 36 int64 edge values, number spellings "
         "the two readers treat differently, dropped / duplicated elements incl. a second <toc>, styles, digest text, certificate "
-        "text, <file>/<data> outside <toc>, nesting depth 40, signature elements without certificates), allocation sizes taken from "
-        "the TOC (64-200 MiB) and a TOC that inflates to 40 MiB. Non-trivial = distinct op whose header passes magic/version/hash.")
+        "text, <file>/<data> outside <toc>, nesting depth 40, signature elements without certificates), regression ops of the repaired "
+        "defects (a62cce4 / 5d6eee4): <size> of <signature>/<x-signature> negative, above 2^48, 64-200 MiB; a TOC that inflates to 40 MiB "
+        "under a header that declares that size, 1000 bytes, 1 MiB, 2*10^8; an old signature area of 2^40 bytes and one of 11 "
+        "elements x 10^6 bytes that tile. Non-trivial = distinct op whose header passes magic/version/hash.")
 TRUSTED = ["Relic.Model.Xar is hand-written from lib/fruit/xar/{xar,sign,verify,structs}.go and signers/xar/xar.go on top of "
            "Relic.Model.Binpatch; tied by differential execution on every run",
            "zlib, the XML tokenizer/serialiser (etree and encoding/xml read the same tokens), strconv, base64 + x509.ParseCertificate are "
@@ -42,6 +44,11 @@ BOUND_BASE, BOUND_PER = 64 << 20, 64
 
 def _b(h):
     return b"" if h == "-" else bytes.fromhex(h)
+
+
+def _declared(fhex):
+    """UncompressedSize of the header (signed)"""
+    return int.from_bytes(bytes.fromhex(fhex[32:48]), "big", signed=True) if len(fhex) >= 48 else 0
 
 
 def _kv(s):
@@ -94,8 +101,9 @@ def canon_model(op, mres):
     k = f[1]
     if mres in ("bad-op", "diverge"):
         return mres
-    if k in ("open", "sign") and f[3] == "-" and len(f[2]) > 60000 and "err toc" in mres:
-        return "any"     # a TOC too large for the op line to carry its tree (inflation bomb): the model is not asked
+    if k in ("open", "vfy", "sign") and f[3] == "-" and len(f[2]) > 60000 and "err toc" in mres and _declared(f[2]) >= 16 << 20:
+        return "any"     # a TOC too large for the op line to carry its tree, honestly declared: the model is not asked
+        # (declared smaller than what the stream yields, `err toc` is the model's answer whatever the tree says)
     if k in ("open", "vfy", "hist"):
         checks, rest = _split_plan(mres)
         if checks is None:
@@ -375,25 +383,26 @@ def _input(op):
     return Arch(_b(op.split(" ")[2]))
 
 
-def _front_of_sigarea(a):
-    """members (length > 0) or extended attributes that begin in front of the end of the old signature area"""
-    s = a.sig_sum()
-    return [it for it in a.items if it["off"] is not None and it["len"] and it["off"] < s]
-
-
 def predicate(prop, op, il, mres, tag):
     f = op.split(" ")
     k = f[1]
     if il.startswith(("crash", "not-run", "harness-error", "bad-op")):
         return ("Relic.Props.%s (xar)" % prop, mres, "implementation process died or harness failed: " + il[:200])
     if il.startswith("panic") and k != "mutate":
-        return ("Relic.Props.C11.xar_no_panic_full", "ok or err", "lib/fruit/xar panicked: " + il)
+        return ("Relic.Props.C11.xar_open_never_panics" if k in ("open", "vfy") else "Relic.Props.C11.xar_sign_no_panic", "ok or err",
+                "lib/fruit/xar panicked: " + il)
     if il.startswith(("alloc", "timeout", "abort")):
-        return ("Relic.Props.C11.xar_alloc_bounded_full", "allocation <= 64 MiB + 64*len, answer within the deadline", "lib/fruit/xar: " + il[:120])
+        return ("Relic.Props.C11.xar_alloc_bounded", "allocation <= 64 MiB + 64*len, answer within the deadline", "lib/fruit/xar: " + il[:120])
     kv = _kv(il)
-    if k == "sign" and prop == "C11" and "ent" in kv and int(kv["ent"]) > 1 + (len(f[2]) // 2) // 4294967295:
-        return ("Relic.Props.C11.xar_patch_entries_bounded_full", "at most len/(2^32-1)+1 patch entries",
+    if k == "sign" and "ent" in kv and kv["ent"].isdigit() and int(kv["ent"]) > 1 + (len(f[2]) // 2) // 4294967295:
+        return ("Relic.Props.C11.xar_sign_patch_entries_le", "one patch entry per 2^32-1 bytes of input",
                 "Sign built a patch set of %s entries for an input of %d bytes (origTotal comes from the <size> values of the TOC)" % (kv["ent"], len(f[2]) // 2))
+    if k in ("sign", "hist") and il.startswith("ok ") and mres.split(" ")[:2] in (["err", "ffront"], ["err", "fnosum"], ["err", "sigfield"], ["err", "sigtile"]):
+        return ("Relic.Props.C01.xar_sign_refuses_bad_layouts", mres,
+                "Sign accepted an archive it cannot re-sign correctly (%s): %s" % (
+                    {"ffront": "a member begins in front of the end of the old signature area", "fnosum": "a member with data has no <archived-checksum>",
+                     "sigfield": "a signature element has an unusable <size> / <offset>", "sigtile": "the old signature areas do not tile the start of the heap"}[mres.split(" ")[1]],
+                    il[:160]))
     if k == "sign" and il.startswith("ok "):
         a = _input(op)
         verdict = kv.get("verify", "?")
@@ -430,8 +439,18 @@ def predicate(prop, op, il, mres, tag):
                     return ("Relic.Props.C08.xar_history", "every round keeps every heap range", "after round %d: %s" % (i + 1, bad))
     if k == "mutate":
         fs = _mutate_findings(f, il, mres)
-        if fs:
+        if fs and any(x[0] in ("panic", "tamper") for x in fs):
             fs.sort(key=lambda x: ["panic", "tamper", "child", "rsa"].index(x[0]))
+            return fs[0][1]
+        if not equiv(op, il, mres) and il.startswith("ok ") and mres.startswith("ok "):
+            # the verifier's answer on one of the mutants is not the model's: name that mutant
+            a, b = il.split(" ")[1:], mres.split(" ")[1:]
+            for i, (x, y) in enumerate(zip(a, b)):
+                if not equiv("XAR mutate", "ok " + x, "ok " + y):
+                    return ("Relic.Props.C02.xar_checked_streams", y, "mutant %s: the verifier answers %s where the model of Open + Verify answers %s" % (
+                        "(unmutated file)" if i == 0 else f[5 + i], x, y))
+        if fs:
+            fs.sort(key=lambda x: ["child", "rsa"].index(x[0]))
             return fs[0][1]
     return None
 
@@ -517,51 +536,35 @@ def _ber_len(b):
     return 2 + n + int.from_bytes(b[2:2 + n], "big")
 
 
+def _inflates_to(fhex, want):
+    """does the TOC region really inflate to exactly `want` bytes (own zlib call, bounded)"""
+    f = _b(fhex)
+    if len(f) < 28:
+        return False
+    hsize, clen = struct.unpack(">H", f[4:6])[0], int.from_bytes(f[8:16], "big", signed=True)
+    if clen <= 0:
+        return False
+    try:
+        d = zlib.decompressobj()
+        x = d.decompress(f[hsize:hsize + clen], want + 1)
+        return len(x) == want and d.eof
+    except Exception:
+        return False
+
+
 def matches_known(k, op, il, mres, tag):
+    """the listed findings that are still open.  (FXAR1/2/3, F12-panic-xar.Open, F13-alloc-xar.Open/Sign are fixed: the model
+    follows the repaired code, the behaviour they describe is a violation again.)"""
     ident = k.get("identity", {})
     site = ident.get("site", "")
     if not site.startswith("xar."):
         return False
     f = op.split(" ")
     kind = f[1]
-    kv = _kv(il)
-    if site == "xar.Open:makeslice":
-        # negative (or > 2^48) <size> of <signature> / <x-signature> reaches make(): the model predicts the same panic
-        def is_site(s):
-            return s.startswith(("panic xar.Open:makeslice", "panic_xar.Open:makeslice"))
-        if kind == "mutate":
-            return any(is_site(o) for o in il.split(" ")[1:]) and il.replace("base=", "") == mres.replace("base=", "")
-        return is_site(il) and mres.startswith("panic xar.Open:makeslice")
-    if site == "xar.Open:alloc":
-        return il.startswith(("alloc xar.Open", "alloc xar.decompress", "alloc xar.parseTOC", "alloc ?", "timeout", "abort")) and kind in ("open", "vfy")
-    if site == "xar.Sign:alloc":
-        if kind == "sign" and "ent" in kv and int(kv["ent"]) > 1 + (len(f[2]) // 2) // 4294967295:
-            return equiv(op, il, mres)
-        return il.startswith(("alloc", "timeout", "abort")) and kind == "sign"
-    if kind not in ("sign", "hist", "mutate"):
-        return False
-    if kind in ("sign", "hist") and not equiv(op, il, mres):
-        return False     # a listed finding is one the model predicts exactly; anything else on the same input is new
-    a = _input(op)
-    if site == "xar.Sign:no-archived-checksum":
-        if not a.ok or not any(it["kind"] == "data" and it["len"] and it["style"] is None for it in a.items):
-            return False
-        if kind == "sign":
-            return il.startswith("ok ") and kv.get("verify", "").startswith("err_fstyle") and \
-                _tables_differ(_table(kv.get("min", "-")), _table(kv.get("mout", "-"))) is None
-        return kind == "hist" and il.startswith("err verify:fstyle")
-    if site == "xar.adjustOffsets:ea":
-        if not a.ok or not any(it["kind"] == "ea" for it in a.items):
-            return False
-        if kind == "sign" and il.startswith("ok "):
-            tin, tout = _table(kv.get("min", "-")), _table(kv.get("mout", "-"))
-            return len(tin) == len(tout) and all(x["sha"] == y["sha"] or x["kind"] == "ea" for x, y in zip(tin, tout))
-        return kind == "hist" and il.startswith("ok ")
-    if site == "xar.Sign:layout-unchecked":
-        # a member (or attribute) begins in front of the end of the old signature area: the patch removes / overwrites it
-        if not a.ok or not _front_of_sigarea(a):
-            return False
-        return (kind == "sign" and il.startswith("ok ")) or (kind == "hist" and il.startswith(("ok ", "err verify:f")))
+    if site == "xar.Open:alloc-declared-size":
+        # the header declares an uncompressed size of 16 MiB .. 10^8 (maxTOCSize) and the TOC inflates to exactly that
+        u = _declared(f[2])
+        return kind in ("open", "vfy") and il.startswith("alloc ") and (16 << 20) <= u <= 100000000 and _inflates_to(f[2], u)
     if site in ("xar.Verify:rsa-ignored", "xar.gatherDataFiles:children-skipped"):
         want = "rsa" if site.endswith("rsa-ignored") else "child"
         fs = _mutate_findings(f, il, mres) if kind == "mutate" else []
